@@ -22,6 +22,20 @@ class Violation(dict):
         return (self["cls"], self["site"])
 
 
+def interpreter_state():
+    """Process-global interpreter / numpy settings that a library call has no business changing (numpy's global
+    generator is NOT among them: seeded calls reseed it by documented design)."""
+    import os
+    import sys
+    po = np.get_printoptions()
+    return {"printoptions": repr(sorted((k, repr(v)) for k, v in po.items())),
+            "recursionlimit": sys.getrecursionlimit(),
+            "stdlib_random": hash(pyrandom.getstate()),
+            "environ": hash(tuple(sorted(os.environ.items()))),
+            "cwd": os.getcwd(),
+            "errstate": repr(sorted(np.geterr().items()))}
+
+
 class Skip(Exception):
     """Op cannot run in this world (dangling reference after minimisation): skipped."""
 
@@ -77,6 +91,7 @@ class World:
                 if any(now[k] != v for k, v in self.caller_err.items()):
                     self.err_changed.append({k: [self.caller_err[k], now[k]] for k in self.caller_err if now[k] != self.caller_err[k]})
                 np.seterr(**harness_err)      # the harness itself computes under its own (default) settings
+
             calls, pending = boot.seams_end()
         self.last_seam_calls = calls
         self.last_stdout = buf.getvalue()
